@@ -99,25 +99,30 @@ def exhaustive_1d(maxlen=6, rng=8, steps=3, masklen=5, mrng=4, iadd=True, conver
             for bits2 in itertools.product((0, 1), repeat=cnt):
                 yield "mask-on-masked", ["alloc " + vals(bv), "alloci " + vals(bits), "getmask 0 1",
                                          "alloci " + vals(bits2), "setscalarmask 2 3 7", "setscalarmask 2 1 8"]
-    # (f) read-only protection: every mutating operation through the array, a masked reference and a handle copy
+    # (f) read-only protection: every mutating operation through the array, a masked reference, a handle copy,
+    #     a masked reference of the copy and a copy of the masked reference — one program per attempt
     for n in range(min(masklen, 4) + 1):
         bv = base_vals(n)
         for bits in itertools.product((0, 1), repeat=n):
             cnt = sum(bits)
-            p = ["alloc " + vals(bv), "alloci " + vals(bits), "alloc " + vals(base_vals(n, 30)),
-                 "alloc " + vals(base_vals(cnt, 40)), "ro 0", "getmask 0 1", "copy 0", "getslice 0 s:N:N:N"]
-            # views: 0 base(ro) 1 mask 2 data(n) 3 data(cnt) 4 masked ref 5 handle copy 6 slice copy
-            for v in (0, 4, 5):
-                p += ["setscalar %d i:0 1" % v, "setscalar %d s:N:N:N 1" % v, "setscalarmask %d 1 1" % v,
-                      "setvector %d s:N:N:N 2" % v, "setvector %d s:N:N:N 3" % v, "setvectormask %d 1 2" % v,
-                      "setvectormask %d 1 3" % v]
+            setup = ["alloc " + vals(bv), "alloci " + vals(bits), "alloc " + vals(base_vals(n, 30)),
+                     "alloc " + vals(base_vals(cnt, 40)), "ro 0", "getmask 0 1", "copy 0", "getslice 0 s:N:N:N",
+                     "getmask 5 1", "copy 4"]
+            # views: 0 base(ro) 1 mask 2 data(n) 3 data(cnt) 4 masked ref 5 handle copy 6 slice copy (writable)
+            #        7 masked ref of the copy 8 copy of the masked ref
+            for v in (0, 4, 5, 7, 8):
+                muts = ["setscalar %d i:0 1" % v, "setscalar %d s:N:N:N 1" % v, "setscalarmask %d 1 1" % v,
+                        "setvector %d s:N:N:N 2" % v, "setvector %d s:N:N:N 3" % v, "setvectormask %d 1 2" % v,
+                        "setvectormask %d 1 3" % v]
                 if iadd:
-                    p += ["iadds %d 5" % v, "iaddv %d 2" % v, "iaddv %d 3" % v]
-            p += ["getitem 0 0", "ifelses 0 1 9", "ifelsev 0 1 2", "setscalar 6 s:N:N:N 1", "getmask 5 1", "copy 4",
-                  "setscalar 8 s:N:N:N 4"]
-            if iadd:
-                p += ["iadds 7 1", "iadds 8 1"]
-            yield "readonly", p
+                    muts += ["iadds %d 5" % v, "iaddv %d 2" % v, "iaddv %d 3" % v]
+                for mline in muts:
+                    yield "readonly", setup + [mline, "getitem 0 0"]
+            yield "readonly", setup + ["setscalar 6 s:N:N:N 1", "len 6"]
+            yield "readonly-read", setup + ["ifelses 0 1 9"]
+            yield "readonly-read", setup + ["ifelsev 0 1 2"]
+            yield "readonly-read", setup + ["ifelses 4 3 9"] if cnt == n or True else None
+            yield "readonly-read", setup + ["getslice 0 s:N:N:-1", "getitem 4 0", "getitem 0 -1"]
     # (g) converting constructor
     if convert:
         for n in range(masklen + 1):
